@@ -106,6 +106,31 @@ CHECKS = {
     note='Trusted: the virtual queue/clock faithfully model queue.Queue.get(timeout) + perf_counter; ties within 1e-9 virtual seconds are excluded.'),
 }
 
+# What the seeded rounds 1-3 and the defects found later added to each workload (appended to the level text)
+WIDENED = {
+ 'C01': 'source / consumer stalls around the 0.1 s and 1 s polling constants with delay sites at every exception-handler entry; results that ARE exception objects (returned, not raised); submissions that raise (func raises instead of returning a future), with and without a preprocessor.',
+ 'C02': 'fixed trees with composites inside composites (ensemble in ensemble, ensemble-sequential-ensemble, switch of ensembles); twin cases with a second server started, stopped and restarted three times in the same process; requests the user-defined switch() cannot route (raises / bad index); inputs that cannot be pickled at the first process boundary (must fail alone).',
+ 'C03': 'stalled consumption (consumer or source silent for 0.12-2.2 s with full buffers); workers that return their input or an exception object unchanged (exception objects travel as ordinary elements through map and parmap).',
+ 'C04': 'validating preprocess (rejects non-request objects); shapes with 1-3 process stages behind an ensemble and a 3-process chain, process shapes sampled per shape in the quick tier; exception objects embedded in successful results are traceback-checked only when no process stage follows (see DESIGN 13).',
+ 'C05': 'adapter-around-pipeline shapes (SyncIter / AsyncIter around buffer and parmap); full cross product of stop position x source-failure position for the producer/consumer hand-offs.',
+ 'C06': 'process-servlet lifetimes with 0.3-3 MB payloads; a contended wait-bound scenario (closed-loop callers keep the server full for 3.5 s; a no-backpressure request with timeout 0.4 s must end within timeout + 1.5 s).',
+ 'C07': 'capacities 1-2 and process servlets; mass abandonment (8-300 requests abandoned together by timeout or closed stream, then immediate shutdown or one more call); enqueue-timeout rounds: a caller gives up (timeout or task cancellation) waiting for room within +-6 ms of the slot being freed while a patient caller waits right behind it, with a delay site in threading.Condition.wait and a loop staller on the asyncio side.',
+ 'C08': 'consumer silent for two polling periods; AsyncStream twins; the same operator object iterated again right after an iteration left early (close / GC / worker failure) with calls in flight, one ledger across both iterations.',
+ 'C09': 'collector / preprocess interplay with upstream failures through thread queues; batch_wait_time 0 with batch_size > 1.',
+ 'C10': 'slow first pull and stalls of the source around the forks\' 0.1 s lock timeout.',
+ 'C11': 'transient init failure followed by re-entry of the SAME server object; trees with composites inside composites and a stage behind them; failure workloads with unroutable and unpicklable requests.',
+ 'C12': 'rare signals (real-time, SIGHUP, SIGBUS ...), unpicklable return values, os._exit, keyword arguments passed through a dict the caller keeps, process lifetimes with 1 MB results, exception classes whose constructor rejects a lone str with ValueError / KeyError / AttributeError, Process / Thread without a target.',
+ 'C13': 're-hosting the same object (server-side ownership), two co-resident proxies of one object, MemoryBlock proxies that mapped the block in a long-lived process.',
+ 'C14': 'bare managed() of a list and of a registered class, proxies used inside the server process, raising calls through every path.',
+ 'C16': 'results that are exception objects; submissions that raise, in the all-rankings plans and seeded cases; 6-12 concurrent no-backpressure callers on both sides; Server.stream vs AsyncServer.stream when the second submission fails with ServerBacklogFull.',
+ 'C17': 'race rounds (more consumers than items, then the stop request); stop after a lost race.',
+ 'C18': 'abandoned requests followed by more requests; latencies around the 0.1 s / 1 s polling intervals; handlers raising 12 exception classes incl. those the library uses for its own control flow; directed late-reader pipe cases (known finding) with per-peer stack dumps.',
+ 'C19': 'the end marker arrives as an equal, distinct object (pickle round trip), value-equal marker class, real spawn-context multiprocessing.Queue rounds.',
+ 'C20': 'level settings on a named logger or on the handler; whole parent programs (subprocess) with a slow file handler that wait with join / result / result(timeout) for a daemon or non-daemon child and end at once.',
+}
+for _k, _v in WIDENED.items():
+    CHECKS[_k]['text'] = CHECKS[_k]['text'].rstrip() + ' Widened since (DESIGN 12, 14): ' + _v
+
 NOT_YET = {}
 
 ALL = [f'C{i:02d}' for i in range(1, 21)]
